@@ -18,11 +18,12 @@ PROPS['C10'] = {
         'anstyle::{RgbColor::{r,g,b},Ansi256Color::{index,into_ansi,from_ansi}}',
     ],
     'quick': {'verus': ['lossy'], 'kani': [
-        {'crate': 'anstyle-lossy', 'harnesses': ['lossy_passthrough_and_low_indices'], 'timeout': 600}]},
+        {'crate': 'anstyle-lossy', 'harnesses': ['lossy_passthrough_and_low_indices', 'lossy_find_match_all_equal'], 'timeout': 600}]},
     'thorough': {'verus': ['lossy'], 'kani': [
-        {'crate': 'anstyle-lossy', 'harnesses': ['lossy_passthrough_and_low_indices', 'lossy_distance_eq_spec'], 'timeout': 1800}]},
+        {'crate': 'anstyle-lossy', 'harnesses': ['lossy_passthrough_and_low_indices', 'lossy_find_match_all_equal', 'lossy_distance_eq_spec'], 'timeout': 1800}]},
     'twins': {'lossy': [{'crate': 'anstyle-lossy', 'harnesses': ['lossy_distance_eq_spec', 'lossy_find_match_vga', 'lossy_find_match_win10'], 'timeout': 300}]},
-    'bounded': {'lossy_distance_eq_spec': 'cross-engine twin of the Verus proof of `distance`: c1 symbolic, c2 components in {0,128,255}'},
+    'bounded': {'lossy_distance_eq_spec': 'cross-engine twin of the Verus proof of `distance`: c1 symbolic, c2 components in {0,128,255}',
+                'lossy_find_match_all_equal': 'palettes whose 16 entries are one (symbolic) colour, input colour symbolic: tie-break twin of the Verus proof of find_match'},
     'assumptions': [
         'Palette as Index<AnsiColor> / Default / From<RawPalette> trait impls are one-line forwards to functions under contract and are not themselves extracted',
     ],
@@ -123,8 +124,8 @@ PROPS['C02'] = {
     'bounded': {'parse_osc_dispatch_slices': 'unsafe leaf osc_dispatch: all parameter counts 0..=16 and all bounds tables, payload <= 6 bytes'},
     'assumptions': ['Perform is caller code: each callback is specified to append exactly one event to a ghost log (rule E6)',
                     'CharAccumulator is specified as a deterministic step function (rule E6); for Utf8Parser see C01 strip_utf8_add_eq_s5 / utf8parse crate',
-                    'L-stream (a driver loop over advance yields model_run) and L-cancel (after CAN/SUB the model behaves as from a fresh state) are consequences of the one-step refinement argued in DESIGN.md, not mechanised'],
-    'explanation': 'Verus proves that one call of the real Parser::advance refines one step of the S2 model (Williams parser + documented limits) for every well-formed parser state and every byte: same events in the same order with the same arguments, representation invariants of Params/OSC bookkeeping preserved; the 16x256 table equals S1 and the unsafe leaves are discharged by Kani.',
+                    'L-stream (drive: a loop over advance yields model_run, any length) and L-cancel (lemma_cancel + the same_future bisimulation, one lemma per state) are mechanised in the same unit; L-cancel excludes the Utf8 pseudo-state, where CAN/SUB are bytes fed to the caller-chosen accumulator (for Utf8Parser: S5 finishes the character on any non-continuation byte)'],
+    'explanation': 'Verus proves that one call of the real Parser::advance refines one step of the S2 model (and, by the verified driver loop, that any stream yields the model run; after CAN/SUB the future equals that of an empty parser) (Williams parser + documented limits) for every well-formed parser state and every byte: same events in the same order with the same arguments, representation invariants of Params/OSC bookkeeping preserved; the 16x256 table equals S1 and the unsafe leaves are discharged by Kani.',
 }
 PROPS['C03'] = {
     'level': 'proof',
@@ -185,7 +186,7 @@ PROPS['C07'] = {
     'explanation': 'csi_dispatch is verified against the S4 SGR semantics for enumerated parameter-list shapes with symbolic values: bounded in shape, complete in values and entry style.',
 }
 
-AUTO_C09 = {'crate': 'anstream', 'harnesses': ['auto_choice_precedence', 'auto_auto_uses_choice'], 'timeout': 900, 'flags': ['-Z', 'stubbing']}
+AUTO_C09 = {'crate': 'anstream', 'harnesses': ['auto_choice_precedence'], 'timeout': 900, 'flags': ['-Z', 'stubbing']}
 PROPS['C09'] = {
     'level': 'proof',
     'functions': ['anstream::auto::choice', 'AutoStream::{choice,auto}', 'anstyle_query::{clicolor,clicolor_force,no_color,term_supports_color,term_supports_ansi_color,truecolor,is_ci,non_empty}',
@@ -205,7 +206,7 @@ PROPS['C08'] = {
     'level': 'model_checking',
     'functions': ['AutoStream::{new,auto,always_ansi,always_ansi_,always,never,into_inner,current_choice,choice}', 'impl Write for AutoStream (write, write_vectored, flush, write_all)'],
     'quick': {'kani': [
-        {'crate': 'anstream', 'harnesses': ['auto_new_dispatch', 'auto_passthrough_forwards', 'auto_never_is_strip_stream', 'auto_auto_uses_choice'], 'timeout': 1500, 'flags': ['-Z', 'stubbing'], 'mem_gb': 12}]},
+        {'crate': 'anstream', 'harnesses': ['auto_new_dispatch', 'auto_passthrough_forwards', 'auto_never_is_strip_stream'], 'timeout': 1500, 'flags': ['-Z', 'stubbing'], 'mem_gb': 12}]},
     'rule': 'one case = one harness over all colour choices / all four Write methods / symbolic buffers of <= 3 bytes; non-trivial = verified',
     'bounded': {'auto_passthrough_forwards': 'buffers <= 3 symbolic bytes, one call per method (every call is stateless in pass-through mode)',
                 'auto_never_is_strip_stream': 'one call per method on a 2-byte buffer; that the call is routed through StripStream is what is checked, StripStream itself is C06'},
@@ -219,10 +220,10 @@ PROPS['C08']['thorough'] = PROPS['C08']['quick']
 PROPS['C12'] = {
     'level': 'model_checking',
     'functions': ['anstyle_ls::parse — the code-application loop (everything after the tokenising statement), cut verbatim (rule E9)'],
-    'quick': {'kani': [{'crate': 'anstyle-ls', 'harnesses': ['ls_codes_1', 'ls_codes_2', 'ls_codes_3', 'ls_codes_5'], 'timeout': 1500, 'mem_gb': 10}]},
-    'thorough': {'kani': [{'crate': 'anstyle-ls', 'harnesses': ['ls_codes_1', 'ls_codes_2', 'ls_codes_3', 'ls_codes_5', 'ls_codes_6'], 'timeout': 3000, 'mem_gb': 12}]},
+    'quick': {'kani': [{'crate': 'anstyle-ls', 'harnesses': ['ls_codes_1', 'ls_codes_2', 'ls_ext_idx_38', 'ls_ext_idx_48', 'ls_ext_idx_58', 'ls_ext_rgb_38', 'ls_ext_rgb_48', 'ls_ext_rgb_58'], 'timeout': 1500, 'mem_gb': 10}]},
+    'thorough': {'kani': [{'crate': 'anstyle-ls', 'harnesses': ['ls_codes_1', 'ls_codes_2', 'ls_ext_idx_38', 'ls_ext_idx_48', 'ls_ext_idx_58', 'ls_ext_rgb_38', 'ls_ext_rgb_48', 'ls_ext_rgb_58', 'ls_codes_3', 'ls_codes_5'], 'timeout': 3000, 'mem_gb': 12}]},
     'bounded': {'ls_codes_1': 'lists of one code, all 256 values', 'ls_codes_2': 'two codes, all values', 'ls_codes_3': 'three codes, all values (covers 38;5;n)',
-                'ls_codes_5': 'five codes, all values (covers 38;2;r;g;b)', 'ls_codes_6': 'six codes, all values'},
+                'ls_codes_5': 'five codes, all values (covers 38;2;r;g;b)', **{h: 'introducer and form concrete, colour values symbolic (all 256 / 2^24), followed by code 1' for h in ['ls_ext_idx_38', 'ls_ext_idx_48', 'ls_ext_idx_58', 'ls_ext_rgb_38', 'ls_ext_rgb_48', 'ls_ext_rgb_58']}},
     'rule': 'one case = one list length with all 256^n code values; non-trivial = verified with a style-changing list reached',
     'assumptions': ['NOT verified: the tokenising statement (split, u8::from_str, collect into VecDeque) and the early return for "", "0", "00" — CBMC does not finish on this std string/alloc code even for concrete inputs; so "rejects anything that is not a list of numbers" and "no style for the empty string, 0, 00" are not covered',
                     'lists longer than six codes are not explored; 38/48/58 not followed by 5;n or 2;r;g;b (truncated or malformed groups) are outside the statement and unconstrained',
@@ -246,11 +247,11 @@ PROPS['C11']['thorough'] = PROPS['C11']['quick']
 
 PROPS['C17'] = {
     'level': 'model_checking',
-    'functions': ['anstyle_wincon::ansi::write_colored', 'WinconStream for dyn Write (forwarding)'],
-    'quick': {'kani': [{'crate': 'anstyle-wincon', 'harnesses': ['wincon_ansi_fg_only', 'wincon_ansi_bg_only', 'wincon_ansi_both', 'wincon_ansi_none', 'wincon_ansi_trait_dyn_write', 'wincon_ansi_fail_first', 'wincon_ansi_fail_data', 'wincon_ansi_fail_reset'], 'timeout': 2400, 'mem_gb': 7, 'jobs': 8}]},
-    'bounded': {h: 'one concrete colour pair (fg only / bg only / both / none / via the dyn Write impl); data 1-2 symbolic bytes, failure at any inner write, any prefix of the data accepted' for h in ['wincon_ansi_fg_only', 'wincon_ansi_bg_only', 'wincon_ansi_both', 'wincon_ansi_none', 'wincon_ansi_trait_dyn_write', 'wincon_ansi_fail_first', 'wincon_ansi_fail_data', 'wincon_ansi_fail_reset']},
+    'functions': ['anstyle_wincon::ansi::write_colored (cut verbatim; std `write!` bound to its documented meaning, rule E10)'],
+    'quick': {'kani': [{'crate': 'anstyle-wincon', 'harnesses': ['wincon_ansi_fg_only', 'wincon_ansi_bg_only', 'wincon_ansi_both', 'wincon_ansi_none', 'wincon_ansi_fail_first', 'wincon_ansi_fail_data', 'wincon_ansi_fail_reset'], 'timeout': 2400, 'mem_gb': 7, 'jobs': 8}]},
+    'bounded': {h: 'one concrete colour pair (fg only / bg only / both / none / via the dyn Write impl); data 1-2 symbolic bytes, failure at any inner write, any prefix of the data accepted' for h in ['wincon_ansi_fg_only', 'wincon_ansi_bg_only', 'wincon_ansi_both', 'wincon_ansi_none', 'wincon_ansi_fail_first', 'wincon_ansi_fail_data', 'wincon_ansi_fail_reset']},
     'rule': 'one case = one colour-pair shape x all data bytes x failure points x accepted prefixes; non-trivial = verified with short-write and error covers reached',
-    'assumptions': ['trait impls for Vec<u8>, File, stdio and their locks forward to the same function (not separately harnessed)', 'S4 (spec/sgr.rs) as SGR reference'],
+    'assumptions': ['std `write!(stream, ..)` on an io::Write renders the arguments, write_all()s the bytes and returns the I/O error (documented behaviour of io::Write::write_fmt; CBMC does not finish on the std implementation itself)', 'trait impls for Vec<u8>, File, dyn Write, stdio and their locks forward to the same function (one-line forwards, not harnessed)', 'S4 (spec/sgr.rs) as SGR reference'],
     'explanation': 'Kani checks write_colored against a scripted writer: codes-before-data interpret (S4) to exactly the requested colours, data forwarded unchanged, reset after, returned count is what the writer accepted for the data, inner errors surface.',
 }
 PROPS['C17']['thorough'] = PROPS['C17']['quick']
@@ -271,14 +272,15 @@ PROPS['C20'] = {
 PROPS['C18'] = {
     'level': 'model_checking',
     'functions': ['anstream::wincon::{write,write_all,cap_wincon_color} (cut verbatim from the working tree and compiled on this platform)'],
-    'quick': {'kani': [{'crate': 'anstream', 'harnesses': ['wincon_cap_color', 'wincon_write_all_case0', 'wincon_write_all_case1', 'wincon_write_reports_progress'], 'timeout': 2400, 'mem_gb': 12, 'jobs': 4}]},
-    'thorough': {'kani': [{'crate': 'anstream', 'harnesses': ['wincon_cap_color', 'wincon_write_all_case0', 'wincon_write_all_case1', 'wincon_write_all_case2', 'wincon_write_all_case3', 'wincon_write_reports_progress'], 'timeout': 3000, 'mem_gb': 12, 'jobs': 6}]},
-    'bounded': {h: 'one concrete styled input against every console script with at most two misbehaving calls (short write of any length, zero write, Interrupted, Other)' for h in ['wincon_write_all_case0', 'wincon_write_all_case1', 'wincon_write_all_case2', 'wincon_write_all_case3', 'wincon_write_reports_progress']},
-    'rule': 'one case = one concrete escape-rich input x all console scripts with <= 2 faults; non-trivial = verified',
-    'assumptions': ['inputs are four fixed escape-rich strings: that the runs handed over are the right runs for *every* input rests on C02 (parser) and C07 (SGR interpretation)',
-                    'impl Write for WinconStream, write_fmt and write_vectored only compile on Windows and are not covered; chunked input is not covered here'],
-    'explanation': 'The platform-independent functions of the console stream are extracted verbatim and run by Kani against a recording console whose every call may accept any prefix, nothing, or fail.',
+    'quick': {'kani': [{'crate': 'anstream', 'harnesses': ['wincon_cap_color', 'wincon_write_all_plumbing', 'wincon_write_reports_progress'], 'timeout': 2400, 'mem_gb': 12, 'jobs': 3, 'flags': ['-Z', 'stubbing']}]},
+    'bounded': {'wincon_write_all_plumbing': 'the styled-run extractor replaced by a recording stand-in yielding 0-2 runs with arbitrary styles and 1-2 byte texts; every console script with at most two misbehaving calls (any prefix, zero, Interrupted, Other)',
+                'wincon_write_reports_progress': 'same stand-in, at most one misbehaving console call'},
+    'rule': 'one case = one harness over all extractor answers (<= 2 runs) x all console scripts (<= 2 faults); non-trivial = verified with covers reached',
+    'assumptions': ['modular: which runs the extractor yields for a given input (visible text in order, no escape byte, style in effect) is C02 + C07; here write/write_all are verified to hand over exactly the runs they are given',
+                    'impl Write for WinconStream, write_fmt and write_vectored only compile on Windows and are not covered'],
+    'explanation': 'The platform-independent functions of the console stream are extracted verbatim and verified by Kani against an uninterpreted run extractor and a recording console whose every call may accept any prefix, nothing, or fail.',
 }
+PROPS['C18']['thorough'] = PROPS['C18']['quick']
 
 PROPS['C19'] = {
     'level': 'other',
